@@ -2,6 +2,8 @@
 (* C32, design model at LOCK GRANULARITY of the handshake as reactivex/observer/scheduledobserver.py and
    observeonobserver.py implement it (PlusCal, translated with pcal -nocfg; the translation is committed):
 
+     subscriber (optional, Subs) ReplaySubject._subscribe_core: the replay was queued under the subject's lock (initial
+                                       queue), then ensure_active() - a SECOND caller racing the producer's (st, sl, se, ss)
      producer   Observer.on_*        : ignored after a terminal (is_stopped)
                 _on_*_core           : self.queue.append(action)            - unlocked, atomic (label pa)
                 ensure_active        : with self.lock: if not has_faulted and queue: is_owner = not is_acquired;
@@ -24,8 +26,13 @@ EXTENDS Integers, Sequences, FiniteSets, TLC
 CONSTANTS MaxNotes,   \* the producer makes at most MaxNotes calls
           Drains,     \* scheduler threads, e.g. {1} or {1, 2}
           LoopDies,   \* TRUE: an exception escaping run() ends the (single) loop thread
-          Bug         \* "none" = the code as pinned; "keep_acquired" = negative control: run() returns on an empty
-                      \* queue WITHOUT resetting is_acquired (the design check must then fail NothingLeftBehind)
+          Bug,        \* "none" = the code as pinned; negative controls: "keep_acquired" = run() returns on an empty queue
+                      \* WITHOUT resetting is_acquired (must fail NothingLeftBehind); "unlocked_test" = ensure_active tests
+                      \* is_acquired / has_faulted BEFORE taking the lock and sets is_acquired unconditionally inside it
+                      \* (must fail OneRunner / Serial as soon as there are two callers and two scheduler threads)
+          Subs,       \* {} or {200}: a second caller of ensure_active - the tail call of ReplaySubject._subscribe_core on the
+                      \* subscribing thread, made outside the subject's lock after the replay was queued
+          Replay      \* number of buffered elements that subscriber's replay put into the queue (ids 101, 102, ...)
 
 Terminal == {"E", "C"}
 P == 100
@@ -34,9 +41,11 @@ Scripts == UNION {[1..n -> {"N", "E", "C"}] : n \in 0..MaxNotes}
 (* --algorithm SOImpl {
   variables script \in Scripts,            \* what the producer calls: script[i] is the kind of call i
             poison \in 0..MaxNotes,        \* the delivery of call `poison` raises (0: none does)
-            queue = <<>>, acquired = FALSE, hasFaulted = FALSE, obsStopped = FALSE,
+            queue = IF Subs = {} THEN <<>> ELSE [j \in 1..Replay |-> 100 + j],
+            acquired = FALSE, hasFaulted = FALSE, obsStopped = FALSE,
             lock = 0, runs = 0, loopDead = FALSE,
-            received = <<>>, ndeliv = 0, inDel = {}, faulted = FALSE;
+            received = IF Subs = {} THEN <<>> ELSE [j \in 1..Replay |-> 100 + j],
+            ndeliv = 0, inDel = {}, faulted = FALSE;
 
   fair process (Prod = 100)
     variables i = 1, isOwner = FALSE;
@@ -45,13 +54,33 @@ Scripts == UNION {[1..n -> {"N", "E", "C"}] : n \in 0..MaxNotes}
          if (~obsStopped) {
            if (script[i] \in Terminal) { obsStopped := TRUE };
    pa:     queue := Append(queue, i); received := Append(received, i);
+   pt:     if (Bug = "unlocked_test" /\ (acquired \/ hasFaulted)) { goto pi };
    pl:     await lock = 0; lock := 100;
-   pe:     if (~hasFaulted /\ queue # <<>>) { isOwner := ~acquired; acquired := TRUE } else { isOwner := FALSE };
+   pe:     if (Bug = "unlocked_test") {
+             if (queue # <<>>) { isOwner := TRUE; acquired := TRUE } else { isOwner := FALSE }
+           } else {
+             if (~hasFaulted /\ queue # <<>>) { isOwner := ~acquired; acquired := TRUE } else { isOwner := FALSE }
+           };
            lock := 0;
    ps:     if (isOwner) { runs := runs + 1 };
          };
    pi:   i := i + 1;
        }
+  }
+
+  fair process (Sub \in Subs)
+    variables sOwner = FALSE;
+  {
+   st: if (Bug = "unlocked_test" /\ (acquired \/ hasFaulted)) { goto sd };
+   sl: await lock = 0; lock := self;
+   se: if (Bug = "unlocked_test") {
+         if (queue # <<>>) { sOwner := TRUE; acquired := TRUE } else { sOwner := FALSE }
+       } else {
+         if (~hasFaulted /\ queue # <<>>) { sOwner := ~acquired; acquired := TRUE } else { sOwner := FALSE }
+       };
+       lock := 0;
+   ss: if (sOwner) { runs := runs + 1 };
+   sd: skip;
   }
 
   fair process (Drain \in Drains)
@@ -80,36 +109,39 @@ Scripts == UNION {[1..n -> {"N", "E", "C"}] : n \in 0..MaxNotes}
 
 \* BEGIN TRANSLATION
 VARIABLES pc, script, poison, queue, acquired, hasFaulted, obsStopped, lock, 
-          runs, loopDead, received, ndeliv, inDel, faulted, i, isOwner, work, 
-          raised
+          runs, loopDead, received, ndeliv, inDel, faulted, i, isOwner, 
+          sOwner, work, raised
 
 vars == << pc, script, poison, queue, acquired, hasFaulted, obsStopped, lock, 
-           runs, loopDead, received, ndeliv, inDel, faulted, i, isOwner, work, 
-           raised >>
+           runs, loopDead, received, ndeliv, inDel, faulted, i, isOwner, 
+           sOwner, work, raised >>
 
-ProcSet == {100} \cup (Drains)
+ProcSet == {100} \cup (Subs) \cup (Drains)
 
 Init == (* Global variables *)
         /\ script \in Scripts
         /\ poison \in 0..MaxNotes
-        /\ queue = <<>>
+        /\ queue = (IF Subs = {} THEN <<>> ELSE [j \in 1..Replay |-> 100 + j])
         /\ acquired = FALSE
         /\ hasFaulted = FALSE
         /\ obsStopped = FALSE
         /\ lock = 0
         /\ runs = 0
         /\ loopDead = FALSE
-        /\ received = <<>>
+        /\ received = (IF Subs = {} THEN <<>> ELSE [j \in 1..Replay |-> 100 + j])
         /\ ndeliv = 0
         /\ inDel = {}
         /\ faulted = FALSE
         (* Process Prod *)
         /\ i = 1
         /\ isOwner = FALSE
+        (* Process Sub *)
+        /\ sOwner = [self \in Subs |-> FALSE]
         (* Process Drain *)
         /\ work = [self \in Drains |-> 0]
         /\ raised = [self \in Drains |-> FALSE]
         /\ pc = [self \in ProcSet |-> CASE self = 100 -> "p0"
+                                        [] self \in Subs -> "st"
                                         [] self \in Drains -> "d0"]
 
 p0 == /\ pc[100] = "p0"
@@ -126,22 +158,30 @@ p0 == /\ pc[100] = "p0"
                  /\ UNCHANGED obsStopped
       /\ UNCHANGED << script, poison, queue, acquired, hasFaulted, lock, runs, 
                       loopDead, received, ndeliv, inDel, faulted, i, isOwner, 
-                      work, raised >>
+                      sOwner, work, raised >>
 
 pi == /\ pc[100] = "pi"
       /\ i' = i + 1
       /\ pc' = [pc EXCEPT ![100] = "p0"]
       /\ UNCHANGED << script, poison, queue, acquired, hasFaulted, obsStopped, 
                       lock, runs, loopDead, received, ndeliv, inDel, faulted, 
-                      isOwner, work, raised >>
+                      isOwner, sOwner, work, raised >>
 
 pa == /\ pc[100] = "pa"
       /\ queue' = Append(queue, i)
       /\ received' = Append(received, i)
-      /\ pc' = [pc EXCEPT ![100] = "pl"]
+      /\ pc' = [pc EXCEPT ![100] = "pt"]
       /\ UNCHANGED << script, poison, acquired, hasFaulted, obsStopped, lock, 
-                      runs, loopDead, ndeliv, inDel, faulted, i, isOwner, work, 
-                      raised >>
+                      runs, loopDead, ndeliv, inDel, faulted, i, isOwner, 
+                      sOwner, work, raised >>
+
+pt == /\ pc[100] = "pt"
+      /\ IF Bug = "unlocked_test" /\ (acquired \/ hasFaulted)
+            THEN /\ pc' = [pc EXCEPT ![100] = "pi"]
+            ELSE /\ pc' = [pc EXCEPT ![100] = "pl"]
+      /\ UNCHANGED << script, poison, queue, acquired, hasFaulted, obsStopped, 
+                      lock, runs, loopDead, received, ndeliv, inDel, faulted, 
+                      i, isOwner, sOwner, work, raised >>
 
 pl == /\ pc[100] = "pl"
       /\ lock = 0
@@ -149,19 +189,25 @@ pl == /\ pc[100] = "pl"
       /\ pc' = [pc EXCEPT ![100] = "pe"]
       /\ UNCHANGED << script, poison, queue, acquired, hasFaulted, obsStopped, 
                       runs, loopDead, received, ndeliv, inDel, faulted, i, 
-                      isOwner, work, raised >>
+                      isOwner, sOwner, work, raised >>
 
 pe == /\ pc[100] = "pe"
-      /\ IF ~hasFaulted /\ queue # <<>>
-            THEN /\ isOwner' = ~acquired
-                 /\ acquired' = TRUE
-            ELSE /\ isOwner' = FALSE
-                 /\ UNCHANGED acquired
+      /\ IF Bug = "unlocked_test"
+            THEN /\ IF queue # <<>>
+                       THEN /\ isOwner' = TRUE
+                            /\ acquired' = TRUE
+                       ELSE /\ isOwner' = FALSE
+                            /\ UNCHANGED acquired
+            ELSE /\ IF ~hasFaulted /\ queue # <<>>
+                       THEN /\ isOwner' = ~acquired
+                            /\ acquired' = TRUE
+                       ELSE /\ isOwner' = FALSE
+                            /\ UNCHANGED acquired
       /\ lock' = 0
       /\ pc' = [pc EXCEPT ![100] = "ps"]
       /\ UNCHANGED << script, poison, queue, hasFaulted, obsStopped, runs, 
-                      loopDead, received, ndeliv, inDel, faulted, i, work, 
-                      raised >>
+                      loopDead, received, ndeliv, inDel, faulted, i, sOwner, 
+                      work, raised >>
 
 ps == /\ pc[100] = "ps"
       /\ IF isOwner
@@ -171,9 +217,62 @@ ps == /\ pc[100] = "ps"
       /\ pc' = [pc EXCEPT ![100] = "pi"]
       /\ UNCHANGED << script, poison, queue, acquired, hasFaulted, obsStopped, 
                       lock, loopDead, received, ndeliv, inDel, faulted, i, 
-                      isOwner, work, raised >>
+                      isOwner, sOwner, work, raised >>
 
-Prod == p0 \/ pi \/ pa \/ pl \/ pe \/ ps
+Prod == p0 \/ pi \/ pa \/ pt \/ pl \/ pe \/ ps
+
+st(self) == /\ pc[self] = "st"
+            /\ IF Bug = "unlocked_test" /\ (acquired \/ hasFaulted)
+                  THEN /\ pc' = [pc EXCEPT ![self] = "sd"]
+                  ELSE /\ pc' = [pc EXCEPT ![self] = "sl"]
+            /\ UNCHANGED << script, poison, queue, acquired, hasFaulted, 
+                            obsStopped, lock, runs, loopDead, received, ndeliv, 
+                            inDel, faulted, i, isOwner, sOwner, work, raised >>
+
+sl(self) == /\ pc[self] = "sl"
+            /\ lock = 0
+            /\ lock' = self
+            /\ pc' = [pc EXCEPT ![self] = "se"]
+            /\ UNCHANGED << script, poison, queue, acquired, hasFaulted, 
+                            obsStopped, runs, loopDead, received, ndeliv, 
+                            inDel, faulted, i, isOwner, sOwner, work, raised >>
+
+se(self) == /\ pc[self] = "se"
+            /\ IF Bug = "unlocked_test"
+                  THEN /\ IF queue # <<>>
+                             THEN /\ sOwner' = [sOwner EXCEPT ![self] = TRUE]
+                                  /\ acquired' = TRUE
+                             ELSE /\ sOwner' = [sOwner EXCEPT ![self] = FALSE]
+                                  /\ UNCHANGED acquired
+                  ELSE /\ IF ~hasFaulted /\ queue # <<>>
+                             THEN /\ sOwner' = [sOwner EXCEPT ![self] = ~acquired]
+                                  /\ acquired' = TRUE
+                             ELSE /\ sOwner' = [sOwner EXCEPT ![self] = FALSE]
+                                  /\ UNCHANGED acquired
+            /\ lock' = 0
+            /\ pc' = [pc EXCEPT ![self] = "ss"]
+            /\ UNCHANGED << script, poison, queue, hasFaulted, obsStopped, 
+                            runs, loopDead, received, ndeliv, inDel, faulted, 
+                            i, isOwner, work, raised >>
+
+ss(self) == /\ pc[self] = "ss"
+            /\ IF sOwner[self]
+                  THEN /\ runs' = runs + 1
+                  ELSE /\ TRUE
+                       /\ runs' = runs
+            /\ pc' = [pc EXCEPT ![self] = "sd"]
+            /\ UNCHANGED << script, poison, queue, acquired, hasFaulted, 
+                            obsStopped, lock, loopDead, received, ndeliv, 
+                            inDel, faulted, i, isOwner, sOwner, work, raised >>
+
+sd(self) == /\ pc[self] = "sd"
+            /\ TRUE
+            /\ pc' = [pc EXCEPT ![self] = "Done"]
+            /\ UNCHANGED << script, poison, queue, acquired, hasFaulted, 
+                            obsStopped, lock, runs, loopDead, received, ndeliv, 
+                            inDel, faulted, i, isOwner, sOwner, work, raised >>
+
+Sub(self) == st(self) \/ sl(self) \/ se(self) \/ ss(self) \/ sd(self)
 
 d0(self) == /\ pc[self] = "d0"
             /\ runs > 0 /\ ~loopDead
@@ -181,7 +280,7 @@ d0(self) == /\ pc[self] = "d0"
             /\ pc' = [pc EXCEPT ![self] = "dl"]
             /\ UNCHANGED << script, poison, queue, acquired, hasFaulted, 
                             obsStopped, lock, loopDead, received, ndeliv, 
-                            inDel, faulted, i, isOwner, work, raised >>
+                            inDel, faulted, i, isOwner, sOwner, work, raised >>
 
 dl(self) == /\ pc[self] = "dl"
             /\ lock = 0
@@ -189,7 +288,7 @@ dl(self) == /\ pc[self] = "dl"
             /\ pc' = [pc EXCEPT ![self] = "dc"]
             /\ UNCHANGED << script, poison, queue, acquired, hasFaulted, 
                             obsStopped, runs, loopDead, received, ndeliv, 
-                            inDel, faulted, i, isOwner, work, raised >>
+                            inDel, faulted, i, isOwner, sOwner, work, raised >>
 
 dc(self) == /\ pc[self] = "dc"
             /\ IF queue # <<>>
@@ -207,14 +306,14 @@ dc(self) == /\ pc[self] = "dc"
                        /\ UNCHANGED << queue, work >>
             /\ UNCHANGED << script, poison, hasFaulted, obsStopped, runs, 
                             loopDead, received, ndeliv, inDel, faulted, i, 
-                            isOwner, raised >>
+                            isOwner, sOwner, raised >>
 
 dw(self) == /\ pc[self] = "dw"
             /\ inDel' = (inDel \cup {work[self]})
             /\ pc' = [pc EXCEPT ![self] = "de"]
             /\ UNCHANGED << script, poison, queue, acquired, hasFaulted, 
                             obsStopped, lock, runs, loopDead, received, ndeliv, 
-                            faulted, i, isOwner, work, raised >>
+                            faulted, i, isOwner, sOwner, work, raised >>
 
 de(self) == /\ pc[self] = "de"
             /\ raised' = [raised EXCEPT ![self] = (work[self] = poison)]
@@ -226,7 +325,7 @@ de(self) == /\ pc[self] = "de"
                   ELSE /\ pc' = [pc EXCEPT ![self] = "dr"]
             /\ UNCHANGED << script, poison, queue, acquired, hasFaulted, 
                             obsStopped, lock, runs, loopDead, received, i, 
-                            isOwner, work >>
+                            isOwner, sOwner, work >>
 
 df(self) == /\ pc[self] = "df"
             /\ lock = 0
@@ -234,7 +333,7 @@ df(self) == /\ pc[self] = "df"
             /\ pc' = [pc EXCEPT ![self] = "dg"]
             /\ UNCHANGED << script, poison, queue, acquired, hasFaulted, 
                             obsStopped, runs, loopDead, received, ndeliv, 
-                            inDel, faulted, i, isOwner, work, raised >>
+                            inDel, faulted, i, isOwner, sOwner, work, raised >>
 
 dg(self) == /\ pc[self] = "dg"
             /\ queue' = <<>>
@@ -246,24 +345,26 @@ dg(self) == /\ pc[self] = "dg"
                        /\ UNCHANGED loopDead
             /\ pc' = [pc EXCEPT ![self] = "d0"]
             /\ UNCHANGED << script, poison, acquired, obsStopped, runs, 
-                            received, ndeliv, inDel, faulted, i, isOwner, work, 
-                            raised >>
+                            received, ndeliv, inDel, faulted, i, isOwner, 
+                            sOwner, work, raised >>
 
 dr(self) == /\ pc[self] = "dr"
             /\ runs' = runs + 1
             /\ pc' = [pc EXCEPT ![self] = "d0"]
             /\ UNCHANGED << script, poison, queue, acquired, hasFaulted, 
                             obsStopped, lock, loopDead, received, ndeliv, 
-                            inDel, faulted, i, isOwner, work, raised >>
+                            inDel, faulted, i, isOwner, sOwner, work, raised >>
 
 Drain(self) == d0(self) \/ dl(self) \/ dc(self) \/ dw(self) \/ de(self)
                   \/ df(self) \/ dg(self) \/ dr(self)
 
 Next == Prod
+           \/ (\E self \in Subs: Sub(self))
            \/ (\E self \in Drains: Drain(self))
 
 Spec == /\ Init /\ [][Next]_vars
         /\ WF_vars(Prod)
+        /\ \A self \in Subs : WF_vars(Sub(self))
         /\ \A self \in Drains : WF_vars(Drain(self))
 
 \* END TRANSLATION
@@ -277,12 +378,12 @@ OrderOK == \A d \in Drains : pc[d] = "dw" => /\ ~faulted /\ inDel = {}
                                               /\ ndeliv < Len(received) /\ work[d] = received[ndeliv + 1]
 \* the scheduler has nothing to do and the producer is not inside a call: nothing received is left behind
 SchedulerIdle == (runs = 0 \/ loopDead) /\ \A d \in Drains : pc[d] = "d0"
-ProducerOutside == pc[P] \in {"p0", "pi", "Done"}
+ProducerOutside == pc[P] \in {"p0", "pi", "Done"} /\ \A sb \in Subs : pc[sb] = "Done"
 NothingLeftBehind == (SchedulerIdle /\ ProducerOutside) => (faulted \/ ndeliv = Len(received))
 \* at most one run() item is scheduled or executing at any time (what makes a pool safe)
 OneRunner == runs + Cardinality({d \in Drains : pc[d] # "d0"}) <= 1
 \* the lock is a mutex
-LockOK == \A p \in ProcSet : pc[p] \in {"pe", "dc", "dg"} => lock = p
+LockOK == \A p \in ProcSet : pc[p] \in {"pe", "se", "dc", "dg"} => lock = p
 \* every notification received is eventually delivered unless a delivery raised (fair scheduling of every process)
 EventuallyDelivered == <>[](faulted \/ ndeliv = Len(received))
 \* negative controls (must be VIOLATED): a fault happens; two notifications wait in the queue at once
